@@ -999,6 +999,11 @@ func (s *Server) handleDecline(req *dhcpv4.DHCPv4) {
 	// Mark IP as unavailable in pool
 	s.leasesMu.Lock()
 	lease, exists := s.leases[mac.String()]
+	if exists && lease != nil && !lease.IP.Equal(declinedIP) {
+		// A client can only decline the address it was given
+		s.leasesMu.Unlock()
+		return
+	}
 	if exists {
 		delete(s.leases, mac.String())
 	}
